@@ -3,7 +3,7 @@
    mapping operations and samples the converter queued).  Converter level: how MMAP2 / FORK / EXEC records build those queues, the
    relative start of a mapping, the call chain -> frame list translation, and the composition for time-ordered recordings. *)
 From SV Require Import Generated.Consts Model.LibMappings Spec.LibMappingsSpec Model.Attribution Spec.AttributionSpec Proofs.AttributionProofs.
-From SV Require Import Model.ConverterMaps Proofs.ConverterMapsProofs Generated.VmaBiasGen Proofs.VmaBiasGenProofs.
+From SV Require Import Model.ConverterMaps Proofs.ConverterMapsProofs Generated.VmaBiasGen Proofs.VmaBiasGenProofs Generated.OpQueueGen Proofs.OpQueueGenProofs.
 From Coq Require Import ZArith.
 Open Scope N_scope.
 
@@ -93,7 +93,21 @@ Theorem C02_vma_bias_translation_total :
     g_compute_vma_bias_impl segs off avma size = Some (vma_bias segs off avma size).
 Proof. exact g_vma_bias_total. Qed.
 
+(* The tie by translation for the replay of the queued operations.  tools/xlate_ho.py re-reads samply/src/shared/lib_mappings.rs on every run and emits
+   LibMappingOpQueueIter::next_op_if_at_or_before, LibMappingOp::apply_to (Add / Move / Remove / Clear, statement by statement over the table) and the
+   regular-library loop of LibMappingsHierarchy::process_ops as Gallina (Generated/OpQueueGen.v).  They compute what the model computes: the operations
+   stamped at or before the sample's time are applied, in order, each with the effect C02_attribution assumes. *)
+Theorem C02_op_replay_translation_agrees :
+  forall (ts : N) (q : list (N * qop)) (m : lm), g_process_ops ts m q = process_ops ts m q.
+Proof. intros ts q m. exact (g_process_ops_eq ts q C02_cutoff_constant m). Qed.
+
+Theorem C02_apply_op_translation_agrees :
+  forall (m : lm) (q : qop), g_apply_to m q = apply_qop m q.
+Proof. exact g_apply_to_eq. Qed.
+
 Print Assumptions C02_cutoff_constant.
+Print Assumptions C02_op_replay_translation_agrees.
+Print Assumptions C02_apply_op_translation_agrees.
 Print Assumptions C02_vma_bias_translation_sound.
 Print Assumptions C02_vma_bias_translation_total.
 Print Assumptions C02_queue_history.
